@@ -13,6 +13,7 @@ import GormModel.Gen.LockSections
 import GormModel.Model.StmtCacheStore
 import GormModel.Lemmas.StmtCacheStore
 import GormModel.Gen.StmtCacheStoreFacts
+import GormModel.Gen.StmtCacheSessFacts
 namespace Gorm
 open SC
 
@@ -219,16 +220,20 @@ theorem C14_transparent_partial (ops : List Op) (nV : Nat) (cfg : Cfg) (sched : 
 
 open SCS in
 /-- CREATION SITES (regenerated from gorm.go on every run).  `NewPreparedStmtDB(` is called at exactly two places, `Open`
-    and `DB.Session`; at both the new cache is bound to a variable and that variable is stored in `cacheStore` under
-    `preparedStmtDBKey`; the one in `Open` is what `db.ConnPool` becomes; the one in `Session` is reached only after a
-    failed `cacheStore.Load(preparedStmtDBKey)` whose success branch reuses the loaded `*PreparedStmtDB`; the structs
-    `Session` builds take `Mux`/`Stmts` (resp. `PreparedStmtDB`) from that variable, and `BeginTx` binds the transaction
-    to its receiver.  Hence the configuration of the current tree is the healthy one. -/
+    and `DB.Session`.  The one in `Open` is bound to a variable that is stored in `cacheStore` under `preparedStmtDBKey`
+    and becomes `db.ConnPool`.  The one in `Session` is reached only after a failed `cacheStore.Load(preparedStmtDBKey)`
+    whose success branch reuses the loaded `*PreparedStmtDB`, and it is registered under the same key EITHER by a `Store`
+    of the variable it is bound to (unrepaired F14d) OR as the value argument of the one `LoadOrStore` whose result the
+    session goes on with (`genSessAtomic`).  The structs `Session` builds take `Mux`/`Stmts` (resp. `PreparedStmtDB`) from
+    that variable — or the handle gets the variable itself (`sessReuse`, repaired F14a) — and `BeginTx` binds the
+    transaction to its receiver.  Hence the five cooperating sites of the current tree are the healthy ones. -/
 theorem C14_cache_creation_sites :
     Gen.cacheSites.map (·.fn) = ["Open", "DB.Session"] ∧
-    (Gen.cacheSites.all fun s => s.bound != "" && s.stored && s.storeKey == "preparedStmtDBKey" &&
-      (s.poolAssigned != "" || (s.afterFailedLoad && s.loadKey == "preparedStmtDBKey"))) = true ∧
-    genSCfg = good := by
+    (Gen.cacheSites.all fun s =>
+      (s.bound != "" && s.stored && s.storeKey == "preparedStmtDBKey" &&
+        (s.poolAssigned != "" || (s.afterFailedLoad && s.loadKey == "preparedStmtDBKey"))) ||
+      (s.fn == "DB.Session" && genSessAtomic && s.afterFailedLoad && s.loadKey == "preparedStmtDBKey")) = true ∧
+    genSCfg = goodWith genSCfg.sessReuse := by
   decide
 
 open SCS in
@@ -236,12 +241,13 @@ open SCS in
     without `PrepareStmt` on any handle (plain, prepared, inside a transaction; nested), `Begin`/`Transaction` on any
     handle, `Reset`/`Close` through any handle — : `NewPreparedStmtDB` ran at most once, every `PreparedStmtDB` struct
     that exists holds the `Mux` of cache object 0, the cache is registered in `cacheStore` as soon as it exists, and
-    every handle works with cache object 0 or with none. -/
-theorem C14_one_cache (prepare : Bool) (seq : List DOp) :
-    let w := runD good prepare seq
+    every handle works with cache object 0 or with none.  `reuse`: whether the session-level handle is the registered
+    struct itself or a second struct around its Mux and current map (both forms of gorm.go, see `SCfg.sessReuse`). -/
+theorem C14_one_cache (reuse prepare : Bool) (seq : List DOp) :
+    let w := runD (goodWith reuse) prepare seq
     OneCache w ∧ ∀ p ∈ w.handles, ∀ c, cacheOfPool w p = some c → c = 0 := by
   intro w
-  have hI := inv_run prepare seq
+  have hI := inv_run reuse prepare seq
   exact ⟨oneCache_of_inv w hI, fun p hp c hc => cacheOf_zero w hI p hp c hc⟩
 
 open SCS in
@@ -250,45 +256,46 @@ theorem C14_one_cache_current_tree (prepare : Bool) (seq : List DOp) :
     let w := runD genSCfg prepare seq
     OneCache w ∧ ∀ p ∈ w.handles, ∀ c, cacheOfPool w p = some c → c = 0 := by
   rw [C14_cache_creation_sites.2.2]
-  exact C14_one_cache prepare seq
+  exact C14_one_cache _ prepare seq
 
 open SCS in
 /-- non-vacuity: a PrepareStmt root, a prepared session on it, a transaction from that session, a prepared session
     inside a plain transaction of a `Session{NewDB}` handle …: five prepared handles, one cache -/
-example : (let w := runD good true [.session 0 true, .begin 1, .session 0 false, .session 3 true, .session 2 true]
+example : ∀ r : Bool, (let w := runD (goodWith r) true [.session 0 true, .begin 1, .session 0 false, .session 3 true, .session 2 true]
     w.nC = 1 ∧ w.handles.length = 6 ∧ w.handles.all (fun p => cacheOfPool w p == some 0) = true) := by decide
 
 open SCS in
-example : (let w := runD good false [.begin 0, .session 1 true, .session 0 true, .session 2 true, .begin 3]
+example : ∀ r : Bool, (let w := runD (goodWith r) false [.begin 0, .session 1 true, .session 0 true, .session 2 true, .begin 3]
     w.nC = 1 ∧ (w.handles.map (cacheOfPool w)) = [none, none, some 0, some 0, some 0, some 0]) := by decide
 
 open SCS in
-/-- ONE GENERATION.  Without `Reset`/`Close` every prepared handle derived from one `Open`, however it was derived,
+/-- ONE GENERATION (the partial form outside the F14a pattern; holds for both forms of the session-level handle).
+    Without `Reset`/`Close` every prepared handle derived from one `Open`, however it was derived,
     points to map object 0: the structs are exactly the `views` of the cache LTS in its initial state
     (`SC.init ops nV cfg` puts every view on map object 0), so the LTS theorems above (at most once per text, failure
     broadcast, leak freedom, deadlock freedom) speak about ALL handles of the database together. -/
-theorem C14_one_generation_shared (prepare : Bool) (seq : List DOp) (h : noRC seq = true) :
-    let w := runD good prepare seq
+theorem C14_one_generation_shared (reuse prepare : Bool) (seq : List DOp) (h : noRC seq = true) :
+    let w := runD (goodWith reuse) prepare seq
     ∀ p ∈ w.handles, ∀ s, structOf p = some s →
       mapOfPool w p = some 0 ∧ ∀ ops nV cfg, mapOfPool w p = (SC.init ops nV cfg).views s := by
   intro w p hp s hs
-  have hI := inv2_run prepare seq h
+  have hI := inv2_run reuse prepare seq h
   exact ⟨mapOf_zero w hI p hp s hs, fun _ _ _ => mapOf_zero w hI p hp s hs⟩
 
 open SCS in
 /-- CLOSED FOR EVERYBODY.  After ANY derivation history on a database opened with `Config.PrepareStmt`, `Close()` on the
     database's cache (handle 0) leaves the root with a nil map, and a `Session(PrepareStmt)` obtained afterwards from ANY
     existing handle — root, older session, transaction — is created (it exists and is prepared) with a nil map too … -/
-theorem C14_session_after_close_invalid (seq : List DOp) (h : Nat) :
-    let w := runD good true (seq ++ [.close 0])
+theorem C14_session_after_close_invalid (reuse : Bool) (seq : List DOp) (h : Nat) :
+    let w := runD (goodWith reuse) true (seq ++ [.close 0])
     h < w.handles.length →
     mapOfPool w (.pdb 0) = none ∧
     ∃ p, (stepD w (.session h true)).handles = w.handles ++ [p] ∧ (structOf p).isSome = true ∧
          mapOfPool (stepD w (.session h true)) p = none := by
   intro w hh
-  have hw : w = stepD (runD good true seq) (.close 0) := runD_snoc _ _ _ _
+  have hw : w = stepD (runD (goodWith reuse) true seq) (.close 0) := runD_snoc _ _ _ _
   rw [hw] at hh ⊢
-  exact session_after_close _ (inv3_run seq) h hh
+  exact session_after_close _ (inv3_run reuse seq) h hh
 
 /-- … and a struct with a nil map answers `ErrInvalidDB` without touching the pool: in ANY state of the cache LTS, an
     `Exec/Query` (in or outside a transaction) through a view whose map is nil takes the two lock sections of `prepare`
@@ -328,35 +335,165 @@ theorem C14_one_cache_counterexample :
 
 
 open SCS in
-/-- F14d witness (kernel-checked): two goroutines call `Session(&Session{PrepareStmt: true})` on a database opened WITHOUT
-    `Config.PrepareStmt` before any cache is registered; both `Load`s miss, both create and `Store`: two cache objects,
-    the two handles work with different ones (the second `Store` overwrites the first). -/
+/-- F14d witness (kernel-checked), UNREPAIRED registration (`Load`, then `NewPreparedStmtDB` + `Store`): two goroutines call
+    `Session(&Session{PrepareStmt: true})` on a database opened WITHOUT `Config.PrepareStmt` before any cache is registered;
+    both `Load`s miss, both create and `Store`: two cache objects are registered one after the other (the second `Store`
+    overwrites the first) and the two handles work with different ones. -/
 theorem C14_first_session_race_counterexample :
-    (let s := crun {} [.load 0, .load 1, .build 0, .build 1]
-     s.nC = 2 ∧ s.got 0 = some 0 ∧ s.got 1 = some 1 ∧ s.store = some 1) := by
+    (let s := crun false {} [.load 0, .load 1, .build 0, .build 1]
+     s.nC = 2 ∧ s.got 0 = some 0 ∧ s.got 1 = some 1 ∧ s.store = some 1 ∧ s.regs = [1, 0]) := by
   decide
 
 open SCS in
-/-- ONE CACHE under concurrent session creation, outside the F14d pattern: once a cache is registered (the database was
-    opened with `Config.PrepareStmt`, or a first prepared session has been obtained), any number of goroutines calling
-    `Session(PrepareStmt)` afterwards, in ANY interleaving of their `Load` / create-and-`Store` steps, all get that
-    cache and no further cache object is allocated. -/
-theorem C14_first_session_partial (c n : Nat) (s0 : CState) (sched : List CAct)
+/-- ONE CACHE under concurrent session creation, outside the F14d pattern (holds for both forms of the registration): once
+    a cache is registered (the database was opened with `Config.PrepareStmt`, or a first prepared session has been
+    obtained), any number of goroutines calling `Session(PrepareStmt)` afterwards, in ANY interleaving of their `Load` /
+    create-and-register steps, all get that cache; no further cache object is allocated and none is registered. -/
+theorem C14_first_session_partial (atomic : Bool) (c n : Nat) (s0 : CState) (sched : List CAct)
     (hstore : s0.store = some c) (hn : s0.nC = n) (hfresh : ∀ g, s0.loaded g = none ∧ s0.got g = none) :
-    let s := crun s0 sched
-    s.nC = n ∧ s.store = some c ∧ ∀ g c', s.got g = some c' → c' = c := by
+    let s := crun atomic s0 sched
+    s.nC = n ∧ s.store = some c ∧ s.regs = s0.regs ∧ ∀ g c', s.got g = some c' → c' = c := by
   intro s
-  have hI : CInv c n s := crun_inv c n sched s0 ⟨hstore, hn, fun g => Or.inl (hfresh g).1, fun g => Or.inl (hfresh g).2⟩
-  refine ⟨hI.nC, hI.store, fun g c' hg => ?_⟩
+  have hI : CInv c n s0.regs s :=
+    crun_inv atomic c n s0.regs sched s0 ⟨hstore, hn, rfl, fun g => Or.inl (hfresh g).1, fun g => Or.inl (hfresh g).2⟩
+  refine ⟨hI.nC, hI.store, hI.regs, fun g c' hg => ?_⟩
   rcases hI.got g with h | h
   · rw [h] at hg; cases hg
   · rw [h] at hg; cases hg; rfl
 
 open SCS in
 /-- non-vacuity: after one completed prepared session three concurrent ones share its cache -/
-example : (let s0 := crun {} [.load 9, .build 9]
-           let s := crun { store := s0.store, nC := s0.nC } [.load 0, .load 1, .build 1, .load 2, .build 0, .build 2]
+example : ∀ a : Bool, (let s0 := crun a {} [.load 9, .build 9]
+           let s := crun a { store := s0.store, nC := s0.nC } [.load 0, .load 1, .build 1, .load 2, .build 0, .build 2]
            s.nC = 1 ∧ s.got 0 = some 0 ∧ s.got 1 = some 0 ∧ s.got 2 = some 0) := by decide
+
+open SCS in
+/-- ONE CACHE under concurrent session creation, FULL statement, for the REPAIRED registration (a cache that had to be
+    created is registered with `LoadOrStore`): starting with NO cache registered, for ANY number of goroutines calling
+    `Session(PrepareStmt)` at the same time and EVERY interleaving of their `Load` / `LoadOrStore` steps, at most one cache
+    object is ever registered, and every handle that was handed out works with exactly that object — which is also what
+    `cacheStore` holds (the objects the losers allocated stay unused). -/
+theorem C14_first_session_atomic (s0 : CState) (sched : List CAct)
+    (hstore : s0.store = none) (hregs : s0.regs = []) (hfresh : ∀ g, s0.loaded g = none ∧ s0.got g = none) :
+    let s := crun true s0 sched
+    s.regs.length ≤ 1 ∧ ∀ g c, s.got g = some c → s.store = some c ∧ s.regs = [c] := by
+  intro s
+  have hI : AInv s := arun_inv sched s0
+    ⟨Or.inl ⟨hstore, hregs⟩, fun g x hx => (by rw [(hfresh g).1] at hx; cases hx), fun g x hx => (by rw [(hfresh g).2] at hx; cases hx)⟩
+  refine ⟨?_, fun g c hg => ?_⟩
+  · rcases hI.regs with ⟨_, h⟩ | ⟨c, _, h⟩ <;> simp [h]
+  · have hs := hI.got g c hg
+    refine ⟨hs, ?_⟩
+    rcases hI.regs with ⟨h, _⟩ | ⟨c', h, hr⟩
+    · rw [hs] at h; cases h
+    · rw [hs] at h; cases h; exact hr
+
+open SCS in
+/-- non-vacuity: the F14d schedule (both `Load`s miss) and a three-goroutine schedule on the repaired registration: two /
+    three objects are allocated, ONE is registered, every handle is on it -/
+example : (let s := crun true {} [.load 0, .load 1, .build 0, .build 1]
+     s.nC = 2 ∧ s.got 0 = some 0 ∧ s.got 1 = some 0 ∧ s.store = some 0 ∧ s.regs = [0]) ∧
+    (let s := crun true {} [.load 0, .load 1, .load 2, .build 2, .build 0, .build 1]
+     s.nC = 3 ∧ s.got 0 = some 0 ∧ s.got 1 = some 0 ∧ s.got 2 = some 0 ∧ s.regs = [0]) := by decide
+
+open SCS in
+/-- WHAT HOLDS FOR THE CURRENT SOURCE TREE (decided by the regenerated registration facts, `genSessAtomic`): either
+    `DB.Session` registers with `LoadOrStore` and one cache holds for every interleaving from an empty `cacheStore`, or it
+    does not and the two-goroutine F14d schedule ends with two registered caches and two handles on different ones —
+    while one cache still holds outside the F14d pattern (`C14_first_session_partial`, either form). -/
+theorem C14_first_session_current_tree :
+    (genSessAtomic = true ∧
+      ∀ (s0 : CState) (sched : List CAct), s0.store = none → s0.regs = [] → (∀ g, s0.loaded g = none ∧ s0.got g = none) →
+        (crun genSessAtomic s0 sched).regs.length ≤ 1 ∧
+        ∀ g c, (crun genSessAtomic s0 sched).got g = some c →
+          (crun genSessAtomic s0 sched).store = some c ∧ (crun genSessAtomic s0 sched).regs = [c])
+    ∨ (genSessAtomic = false ∧
+      (let s := crun genSessAtomic {} [.load 0, .load 1, .build 0, .build 1]
+       s.regs.length = 2 ∧ s.got 0 ≠ s.got 1)) := by
+  cases h : genSessAtomic with
+  | true => exact Or.inl ⟨rfl, fun s0 sched h1 h2 h3 => C14_first_session_atomic s0 sched h1 h2 h3⟩
+  | false => exact Or.inr ⟨rfl, by decide⟩
+
+/-! ### ONE struct (F14a): which `PreparedStmtDB` value a session-level handle works with -/
+
+open SCS in
+/-- F14a in the derivation world (kernel-checked), UNREPAIRED session-level handle (a second struct around the registered
+    cache's Mux and CURRENT map): on a `Config.PrepareStmt` database, a prepared session and `Reset()` through it — the
+    session moves to a fresh map, the root stays on the old one (whose statements the Reset closes); likewise `Close()`
+    through the session leaves the root on a live map; and Reset through the ROOT leaves the session on the old map. -/
+theorem C14_stale_map_counterexample :
+    (let w := runD good true [.session 0 true, .reset 1]
+     w.handles.map (mapOfPool w) = [some 0, some 1]) ∧
+    (let w := runD good true [.session 0 true, .close 1]
+     w.handles.map (mapOfPool w) = [some 0, none]) ∧
+    (let w := runD good true [.session 0 true, .reset 0]
+     w.handles.map (mapOfPool w) = [some 1, some 0]) := by
+  decide
+
+open SCS in
+/-- ONE STRUCT, FULL statement, for the REPAIRED session-level handle (`tx.Statement.ConnPool = preparedStmt`): for `Open`
+    with or without `Config.PrepareStmt` and EVERY sequence of derivations, `Reset`s and `Close`s through any handle — no
+    hypothesis about Reset/Close — at most one `PreparedStmtDB` value exists, every prepared handle (session, nested
+    session, transaction) works through it, hence all of them point to the same map object at any time: a `Reset` /
+    `Close` through any handle is seen through every handle, and the handles are the single view of an instance of the
+    cache LTS with `nV = 1`. -/
+theorem C14_one_struct (prepare : Bool) (seq : List DOp) :
+    let w := runD (goodWith true) prepare seq
+    w.structs.length ≤ 1 ∧
+    (∀ p ∈ w.handles, ∀ s, structOf p = some s → s = 0) ∧
+    (∀ p ∈ w.handles, ∀ q ∈ w.handles, (structOf p).isSome = true → (structOf q).isSome = true →
+      mapOfPool w p = mapOfPool w q) := by
+  intro w
+  obtain ⟨h1, h2⟩ := oneStruct_of_invR w (invR_run prepare seq)
+  refine ⟨h1, h2, fun p hp q hq hps hqs => ?_⟩
+  obtain ⟨s, hs⟩ := Option.isSome_iff_exists.mp hps
+  obtain ⟨s', hs'⟩ := Option.isSome_iff_exists.mp hqs
+  have e1 := h2 p hp s hs
+  have e2 := h2 q hq s' hs'
+  subst e1; subst e2
+  simp [mapOfPool, hs, hs']
+
+open SCS in
+/-- non-vacuity: the three F14a derivations on the repaired form — one struct, the handles agree on the map -/
+example : (let w := runD (goodWith true) true [.session 0 true, .reset 1]
+     w.structs.length = 1 ∧ w.handles.map (mapOfPool w) = [some 1, some 1]) ∧
+    (let w := runD (goodWith true) true [.session 0 true, .close 1]
+     w.handles.map (mapOfPool w) = [none, none]) ∧
+    (let w := runD (goodWith true) false [.session 0 true, .session 0 true, .begin 1, .reset 2, .session 3 true]
+     w.structs.length = 1 ∧ w.handles.map (mapOfPool w) = [none, some 1, some 1, some 1, some 1]) := by
+  decide
+
+open SCS in
+/-- WHAT HOLDS FOR THE CURRENT SOURCE TREE (configuration computed from the regenerated facts): either `DB.Session` hands the
+    registered struct itself to the new handle and ONE STRUCT holds for every derivation / Reset / Close sequence, or it
+    builds a second struct and the F14a derivation leaves the root of a `Config.PrepareStmt` database on the old map after
+    a Reset through a session — while without Reset/Close all handles still share map object 0. -/
+theorem C14_one_struct_current_tree :
+    (genSCfg.sessReuse = true ∧
+      ∀ (prepare : Bool) (seq : List DOp),
+        (runD genSCfg prepare seq).structs.length ≤ 1 ∧
+        ∀ p ∈ (runD genSCfg prepare seq).handles, ∀ q ∈ (runD genSCfg prepare seq).handles,
+          (structOf p).isSome = true → (structOf q).isSome = true →
+          mapOfPool (runD genSCfg prepare seq) p = mapOfPool (runD genSCfg prepare seq) q)
+    ∨ (genSCfg.sessReuse = false ∧
+      (let w := runD genSCfg true [.session 0 true, .reset 1]
+       w.handles.map (mapOfPool w) = [some 0, some 1]) ∧
+      (∀ (prepare : Bool) (seq : List DOp), noRC seq = true →
+        ∀ p ∈ (runD genSCfg prepare seq).handles, ∀ s, structOf p = some s →
+          mapOfPool (runD genSCfg prepare seq) p = some 0)) := by
+  have hg := C14_cache_creation_sites.2.2
+  cases hr : genSCfg.sessReuse with
+  | true =>
+    rw [hr] at hg
+    refine Or.inl ⟨rfl, fun prepare seq => ?_⟩
+    rw [hg]
+    exact ⟨(C14_one_struct prepare seq).1, (C14_one_struct prepare seq).2.2⟩
+  | false =>
+    rw [hr] at hg
+    refine Or.inr ⟨rfl, ?_, fun prepare seq h p hp s hs => ?_⟩
+    · rw [hg]; decide
+    · rw [hg] at hp ⊢
+      exact (C14_one_generation_shared false prepare seq h p hp s hs).1
 
 /-! ### findings: concrete schedules on which the full statement fails (kernel-checked) -/
 
